@@ -277,6 +277,25 @@ def tla_cfg(cfg, mins, pairs):
 def run(ctx):
     cfg = TIERS[ctx.tier]
     rng = ctx.rng
+    ctx.cov['rule'] = ('One evaluation = one call `INPUT | try F(ARGS) catch .` (first 50 outputs, each printed the way the fq command line '
+                       'prints an output) run by real fq on a fresh Interp in an isolated worker. distinct_nontrivial = distinct '
+                       '(function/arity, position, pool value) triples actually executed, position 0 being the input. Every executed call is '
+                       'an event validated by TraceOutcome.tla; the TLC postcondition checks that every (function, position, required pool '
+                       'value) of the run-time inventory occurs with per-type benign defaults elsewhere (thorough: also every pair over the '
+                       'pair pool for arity 1..2).')
+    ctx.assumptions += [
+        'fault enumeration: totality is shown for the recorded pool values and benign contexts only, not for all jq values',
+        'a process exit (status, no Go runtime fault) is accepted for the documented process enders %s and for internal (`_`-prefixed) '
+        'functions, which are the plumbing of those exits and of the interpreter state; for any other function it is a finding' % sorted(EXIT_BY_DESIGN),
+        'hang = the call alone in a fresh worker exceeded the CPU budget (1.25 x per-call watchdog seconds of CPU) or the wall cap twice; '
+        'work that is merely proportional to a huge count argument is reported the same way and listed in known_findings.txt when by design',
+        'standard output of a call is a virtual terminal (binary results are shown as a truncated hex dump, not copied raw)',
+        'parsed @builtin jq modules are shared between the Interps of one worker process (parse cache only; each call still compiles and '
+        'runs on its own Interp with its own state)',
+        'the process-level functions halt/0 and halt_error/0,1 are defined by gojq; they are in the inventory because fq\'s main loop implements their effect',
+    ]
+    ctx.cov['trusted_base'] += ['harness/c13/main.go classify(): marker line -> results/error/mixed/exit (30 lines)',
+                                'checks/c13.py fault_sig(): Go traceback -> signature frame (does not decide verdicts, only names them)']
     R = Runner(ctx, cfg)
 
     # ---- 1. inventory, read from the running program
@@ -556,14 +575,16 @@ def binding_demo(ctx, events, fns, pool, cfg, cfgt, extra, rejected_lines):
 
 
 def replay(ctx, path):
-    case = json.load(open(path))['case']
+    """re-run the call of a replay file alone in a fresh worker; a fault is reported under the recorded signature"""
+    rec = json.load(open(path))
+    case = rec['case']
     R = Runner(ctx, TIERS['quick'])
     jp = os.path.join(ctx.build, 'replay_jobs.ndjson')
     rp = os.path.join(ctx.build, 'replay_res.ndjson')
     vlib.write_ndjson(jp, [case['job']])
-    ctx.run([R.bin, 'run', jp, rp, '1', str(TIERS['quick']['mem_kb']), '30'], check=True, timeout=600)
+    ctx.run([R.bin, 'run', jp, rp, '1', str(TIERS['quick']['mem_kb']), str(TIERS['quick']['per_call'])], check=True, timeout=900)
     r = vlib.read_ndjson(rp)[0]
-    print('replay outcome: %s %s' % (r['outcome'], r['msg'][:400]))
-    if r['outcome'] in ('panic', 'fatal', 'fatal-oom', 'fatal-stack', 'hang'):
-        ev = dict(case, fn=json.load(open(path))['sig'].split(':')[1].rsplit('/', 1)[0], arity=0, outcome=r['outcome'], msg=r['msg'])
-        ctx.finding(json.load(open(path))['sig'], 'replayed: ' + r['msg'].split('\n')[0], case)
+    vlib.log('replay outcome: %s %s' % (r['outcome'], r['msg'][:300].replace('\n', ' | ')))
+    ctx.cov['evaluations'] += 1
+    if r['outcome'] in ('panic', 'fatal', 'fatal-oom', 'fatal-stack', 'hang') or (r['outcome'] == 'exit' and ':uncaught-exit:' in rec['sig']):
+        ctx.finding(rec['sig'], 'replayed: %s: %s' % (r['outcome'], r['msg'].split('\n')[0][:160]), case)
